@@ -25,6 +25,7 @@ RULE = ('(a) from_sparse on generated (data, column table, requested channels) t
         'the leading principal components computed independently from the raw bytes. non-trivial = distinct '
         'cases with a discarded column, a permuted request, or a row table.')
 RULE += " Added classes: -1 padded template_feature_ind / pc_feature_ind rows (padding never in the first slot, ids distinct per row); 384-channel probes with 17-40 requested channels (NumPy's sort-based isin branch); one conversion of > 50000 spikes per shard."
+RULE += ' Spike-id and channel-id arrays of every integer dtype (uint8..uint64, int32, int64), read-only arrays; the returned feature block is overwritten by the caller before the next request.'
 EXHAUSTIVE = {'quick': False, 'thorough': False}
 FLOORS = {'quick': {'evaluations': 20000, 'distinct_nontrivial': 8000,
                     'monitors': {'M2.from_sparse.checked': 12000}},
